@@ -2,7 +2,15 @@
     This file only pins statements: every theorem restates a lemma of proofs/ verbatim and is closed by it. *)
 From CacheD Require Import Base Sketch Model Window Micro.
 From CacheD.proofs Require Import Defs ApiProofs HistoryProofs StatsProofs.
-From CacheD.proofs Require Import MicroProofs.
+From CacheD.proofs Require Import MicroProofs MicroBal MicroAll.
+
+(** (C13, every event of the micro model - every window of every call and of every worker command, every stage of
+   shutdown): once the flag is up it stays up *)
+Theorem C13_micro_shut_stable_all :
+  forall cfg ms ev,
+  shut (mbase ms) = true -> shut (mbase (fst (mstep cfg ms ev))) = true.
+Proof. exact micro_shut_stable_all. Qed.
+Print Assumptions C13_micro_shut_stable_all.
 
 (** (C13, shutdown in stages): the flag never goes down again, whatever micro step of whatever caller (puts,
    deletes, reads, put_or_update's first half, every stage of shutdown) or whole event of the atomic model follows *)
